@@ -245,6 +245,16 @@ class TaintAnalysis:
                 tot, elems = self.returns(r, self._callee_cls(r, self_cls), pt, depth + 1)
                 if elems and len(elems) == n:
                     return elems[idx]
+        if isinstance(val, ast.Name):
+            # a local that only ever holds tuple displays of this arity (`ret = (a, b, c)` ... `x, y, z = ret`): element-wise
+            from .common import sole_defs
+            ds = sole_defs(fn, val.id)
+            ds = [d for d in (ds or []) if not (isinstance(d, ast.Constant) and d.value is None)]  # the `= None` before a one-pass loop
+            if ds and all(isinstance(d, ast.Tuple) and len(d.elts) == n and not any(isinstance(e, ast.Starred) for e in d.elts) for d in ds):
+                out: Origins = EMPTY
+                for d in ds:
+                    out = out | self.expr(fn, d.elts[idx], env, self_cls, depth)
+                return out
         return whole
 
     def _callee_cls(self, r: FuncInfo, self_cls: Optional[ClassInfo]) -> Optional[ClassInfo]:
